@@ -1,4 +1,6 @@
 import BqVerif.Model.Graph
+import BqVerif.Model.GraphExt
+import BqVerif.Model.GraphRel
 import BqVerif.Drivers.Util
 /- Driver for the `graph` machine (C20). One self-contained request per line. -/
 namespace BqVerif.Drv.Graph
@@ -102,11 +104,38 @@ def step (line : String) : String :=
      | some (n :: r :: loc) =>
        showList ((List.range (r ^ n)).map (permFromLocation n r loc))
      | _ => "bad-op")
+  | ["genswap" :: ts] =>
+    (match nats ts with
+     | some [r] => showList ((List.range (r * r)).map (genSwapRow r))
+     | _ => "bad-op")
   | ["permspec" :: ts] =>
     (match nats ts with
      | some (n :: r :: loc) =>
        showList ((List.range (r ^ n)).map (permSpec n r loc))
      | _ => "bad-op")
+  | ["fcw" :: ts, [q]] =>
+    (match parseG ts, q.toNat? with
+     | some g, some q =>
+       (match g.isFullyConnectedWithout q with
+        | some b => toString b
+        | none => "raise")
+     | _, _ => "err")
+  | ["qpu" :: ts, rem] =>
+    (match parseG ts, nats rem with
+     | some g, some rem =>
+       let remote := ((pairs rem).map norm).eraseDups
+       let sets (ls : List (List Nat)) : String :=
+         " ; ".intercalate (ls.map (fun l => showList (sortNat l)))
+       s!"{sets (g.qpuToQudit remote)} # {showList (g.quditToQpuImpl remote)} # {sets (g.qpuConnImpl remote)}"
+     | _, _ => "err")
+  | ["matchcheck" :: ts, ign, res] =>
+    (match parseG ts, nats ign, nats res with
+     | some g, some ign, some res => toString (validMatching g (pairs ign) (pairs res))
+     | _, _, _ => "err")
+  | ["spancheck" :: ts, [root], res] =>
+    (match parseG ts, root.toNat?, nats res with
+     | some g, some root, some res => toString (validMinSpan g root (pairs res))
+     | _, _, _ => "err")
   | _ => "bad-op"
 
 def main : IO Unit := do loop (← IO.getStdin) step
